@@ -76,6 +76,43 @@ def run(ctx, pid=PID, check=_life.check_c03, with_up=WITH_UP):
         tid += 1
         meta[tid] = (entry, hist, origin)
         recs += _life.trace_events(tid, entry["mode"], hist, obs)
+    if not with_up:
+        # three fixed histories per forecaster, stated directly by C03: (a) a relative and an absolute horizon with the
+        # same numbers on one fitted object, (b) the horizon given to fit answers predict() -- also when it is not the
+        # splitter's of a tuner --, (c) after an update with data that do not reach the end of what was seen before,
+        # the cutoff is the last time point of the data passed to update
+        from sktime.forecasting.base import ForecastingHorizon
+        import pandas as pd
+        for entry in entries:
+            if entry.get("exog"):
+                continue
+            ctx.evaluations += 1
+            sc = {"forecaster": entry["name"], "direct": "same-numbers / fit-horizon / short update"}
+            try:
+                y = LC.batch(0, 11, 1, 0, "range")
+                if entry["mode"] == "opt":
+                    f = entry["factory"]().fit(y)
+                    pa = f.predict(ForecastingHorizon(pd.Index([14, 16]), is_relative=False))
+                    pr = f.predict([14, 16])
+                    pa2 = f.predict(ForecastingHorizon(pd.Index([14, 16]), is_relative=False))
+                    if [int(i) for i in pa.index] != [14, 16] or [int(i) for i in pr.index] != [25, 27] or \
+                            [int(i) for i in pa2.index] != [14, 16]:
+                        ctx.violation(sc, "PredictIndex: absolute [14, 16] then relative [14, 16] then absolute again on %s gave "
+                                          "indexes %s, %s, %s" % (entry["name"], list(pa.index), list(pr.index), list(pa2.index)))
+                        continue
+                f = entry["factory"]().fit(y, fh=[2, 4])
+                p = f.predict()
+                if [int(i) for i in p.index] != [13, 15]:
+                    ctx.violation(sc, "PredictIndex: fit(y, fh=[2, 4]); predict() on %s is indexed %s" % (entry["name"], list(p.index)))
+                    continue
+                f.update(LC.batch(12, 17, 2, 0, "range"), update_params=False)
+                f.update(LC.batch(13, 15, 3, 0, "range"), update_params=False)
+                if int(f.cutoff) != 15:
+                    ctx.violation(sc, "CutoffIsLastGiven: after update with time points 13..15 the cutoff of %s is %s" % (entry["name"], f.cutoff))
+                    continue
+                ctx.nontriv(sc)
+            except Exception as e:
+                ctx.violation(sc, "crash: %s %s" % (type(e).__name__, str(e)[:140]))
     if with_up:
         # update_predict with a horizon that reaches into the sample (window forecasters answer those steps by a
         # nested moving-cutoff pass): the forecaster's own cutoff must still be where it was (Inv_CutoffRestored)
